@@ -107,7 +107,8 @@ pub fn body(inst: &str) {
                     }
                 }
                 Err(Stop::Panic { msg, loc }) => {
-                    let refusal = msg.contains("zero pivot") || msg.contains("zero on leading diagonal");
+                    let lower = msg.to_lowercase();
+                    let refusal = lower.contains("zero") || lower.contains("pivot") || lower.contains("singular");
                     prove(&format!("solve: the only panic is the zero-pivot refusal (got '{}' at {})", msg, loc), if refusal { B::True } else { B::False });
                     if kind == "solve_dd" {
                         prove("solve: a strictly diagonally dominant system is never refused", B::False);
